@@ -132,6 +132,45 @@ def layout_probe(ctx, gp):
     return out, ""
 
 
+def numpy_layout_layer(ctx, gp):
+    """Model.PyTyped.np_layout / py_fast against numpy: itemsize, alignment and packed itemsize of the aligned structured dtype
+    the generated Python builds for every record of the crafted package (get_dtype), and whether the fast path applies"""
+    from vlib import PY_VT
+    names = [r.name for r in gp.pkg.records]
+    prog = ("import sys, json\nsys.path.insert(0, %r)\nimport %s as m\nfrom numpy.lib import recfunctions\nout = {}\n"
+            "for n in %r:\n    dt = m.get_dtype(getattr(m, n))\n    pk = recfunctions.repack_fields(dt, align=False, recurse=True)\n"
+            "    out[n] = [dt.itemsize, dt.alignment, pk.itemsize, dt.hasobject]\nprint(json.dumps(out))\n"
+            % (os.path.join(gp.dir, "python"), gp.module, names))
+    open(os.path.join(gp.dir, "npprobe.py"), "w").write(prog)
+    rc, o, e = sh([PY_VT, os.path.join(gp.dir, "npprobe.py")], timeout=120)
+    if rc != 0:
+        ctx.report("numpy-probe", "the numpy dtype probe failed on the generated Python package: " + e[-300:],
+                   {"model": gp.pkg.yaml(), "error": e[-1500:], "broken": "correspondence Model.PyTyped.np_layout vs numpy"}, no_input=True)
+        return
+    probe = json.loads(o)
+    items = []
+    for r in gp.pkg.records:
+        sz, al, pk, hasobj = probe[r.name]
+        items.append("(%s, %d, %d, %d, %s)" % (r.coq(), sz, al, pk, "true" if hasobj else "false"))
+    body = ("From Coq Require Import List NArith ZArith Bool.\nImport ListNotations.\nOpen Scope N_scope.\n"
+            "From YV Require Import Base.Wire Model.Binary Model.CodedCpp Model.CodedPy Model.PyTyped Model.PlanCases.\n"
+            "Definition cases : list npcase := [\n " + ";\n ".join(items) + "\n].\n"
+            "Definition ST := Eval vm_compute in map npcase_status cases.\nPrint ST.\n")
+    st = Ctx.parse_nat_list(ctx.coq_eval("nplayout", body, timeout=900), "ST")
+    for r, s_ in zip(gp.pkg.records, st):
+        sz, al, pk, hasobj = probe[r.name]
+        ctx.case(("np-layout", r.name, r.coq()), sample={"record": r.name, "numpy_itemsize": sz, "numpy_alignment": al, "packed_itemsize": pk,
+                                                          "has_object_fields": bool(hasobj), "status": s_})
+        ctx.count("numpy_layout_agreement", {0: "itemsize+alignment+packed size", 1: "not modelled (object / non-numeric member)"}.get(s_, "DIFFERS"))
+        ctx.count("numpy_padding", "padded" if sz != pk else "no padding")
+        if s_ >= 2:
+            ctx.report("numpy-layout-differs:%d" % s_, "Model.PyTyped.np_layout and numpy disagree on the aligned dtype of record %s %s: numpy says "
+                       "itemsize=%d alignment=%d packed=%d" % (r.name, [(n, t.spell) for n, t in r.fields], sz, al, pk),
+                       {"model": gp.pkg.yaml(), "record": r.name, "numpy": {"itemsize": sz, "alignment": al, "packed": pk},
+                        "broken": "correspondence Model.PyTyped.np_layout vs numpy (theorem C14_python_array_fast_path_sound no longer "
+                                  "about the code)"}, no_input=True)
+
+
 def layout_layer(ctx, gp):
     """Model.CppLayout against the compiler: trait value, sizeof and offsetof of every record of the crafted package"""
     probe, err = layout_probe(ctx, gp)
@@ -263,6 +302,7 @@ def run(ctx):
         ctx.report("cpp-compile:pad", "generated C++ of the padding package does not compile", {"model": gp.pkg.yaml(), "error": gp.cpp_err[-2000:]})
     else:
         layout_layer(ctx, gp)
+        numpy_layout_layer(ctx, gp)
         gp.py_start()
         bcases, bmeta = [], []
         try:
